@@ -416,6 +416,11 @@ def r7(rr, repo):
         rr.ob('after a send the id handed over by recv() is used up (self.send_state = None)', bool(st) and st[-1].args[0] == 'None', mqm, sent[0].node, witness=p.pc_text()[-200:], key='send-state-cleared')
         rs = [e for e in p.events if e.kind == 'store' and e.term == 'self.recv_state']
         rr.ob('after a send the state returned by the sender becomes the next expected id of recv()', bool(rs) and 'self.sender.send(' in rs[-1].args[0], mqm, sent[0].node, witness=rs[-1].args[0][:120] if rs else '', key='recv-state-set')
+        # callers retry on False (Filter.loop_once: `while not self.mq.send(...)`): once the sender answered - published, or dropped the frame because
+        # its id was overtaken - the id is used up, so False here re-publishes the same frame under a NEW id (out of order, and the real owner of that id is discarded later)
+        isret, isconst, val = ret_const(p)
+        rr.ob('MQ.send() reports False (= retry) only when the sender timed out; once the sender answered it reports True, whether the frame went out or was dropped as overtaken', isret and isconst and val is True,
+              mqm, sent[0].node, witness=p.outcome_text()[:80], key='false-only-on-timeout')
     rr.floor('successful-send paths of MQ.send', n, 1, mqm, mq_send)
     m = 0
     for p in Evaluator(repo, mqm).run(mq_recv.body):
